@@ -102,6 +102,16 @@ fn build(hist: &[Json]) -> (Module, FunctionId) {
                         fb.instr_seq(s).instr_at(pos, Block { seq: dseq });
                     }
                 }
+                "attachif" => {
+                    let s = real[sq as usize];
+                    let (c, alt) = (real[d as usize], real[e["v"].as_i64().unwrap() as usize]);
+                    fb.instr_seq(s).instr_at(pos, Const { value: Value::I32(1) }).instr_at(pos + 1, IfElse { consequent: c, alternative: alt });
+                }
+                "brtable" => {
+                    let s = real[sq as usize];
+                    let (t1, t2) = (real[d as usize], real[e["v"].as_i64().unwrap() as usize]);
+                    fb.instr_seq(s).instr_at(pos, Const { value: Value::I32(0) }).instr_at(pos + 1, BrTable { blocks: vec![t1].into(), default: t2 });
+                }
                 "br" => {
                     let s = real[sq as usize];
                     fb.instr_seq(s).instr_at(pos, Br { block: real[d as usize] });
